@@ -280,6 +280,18 @@ func (g *o5resender) BadO5resend(seq uint16) {
 	_, _ = g.w.Write(k.Header(), k.payload, nil)
 }
 
+// BadO5shallow copies the header *value*: the copy's CSRC and extension slices are still the kept header's.
+func (g *o5resender) BadO5shallow(seq uint16) {
+	g.mu.Lock()
+	k := g.kept[seq]
+	g.mu.Unlock()
+	if k == nil {
+		return
+	}
+	h := *k.Header()
+	_, _ = g.w.Write(&h, k.payload, nil)
+}
+
 func (g *o5resender) BindRTCPReader(r interceptor.RTCPReader) interceptor.RTCPReader {
 	return interceptor.RTCPReaderFunc(func(b []byte, a interceptor.Attributes) (int, interceptor.Attributes, error) {
 		n, attr, err := r.Read(b, a)
@@ -288,6 +300,7 @@ func (g *o5resender) BindRTCPReader(r interceptor.RTCPReader) interceptor.RTCPRe
 		}
 		go g.GoodO5resend(uint16(n))
 		go g.BadO5resend(uint16(n))
+		go g.BadO5shallow(uint16(n))
 		return n, attr, nil
 	})
 }
